@@ -589,6 +589,7 @@ def check_tick(res, facts, prop):
             # entered in order and only when the accumulated phase wraps (a missed wrap restarts the curve from its start
             # level: non-monotone and a step), and a new phase starts at phase 0 (else the new curve starts in mid-air).
             full = prop == 'C02'
+            timing = prop in ('C02', 'C01')     # the shape statement needs every phase to progress at the programmed rate and to end
             if prop not in ('C02', 'C01', 'C03'):
                 continue
             if state not in TIME_FIELD:
@@ -600,7 +601,7 @@ def check_tick(res, facts, prop):
                 continue
             period = pre.get(TIME_FIELD[state]).fields[0].term
             inc1 = pa1.get('increment')
-            if full:
+            if timing:
                 exp_inc_real = inc_spec(total, period, fs)
                 ok_inc = isinstance(inc1, Num) and inc1.term == t_f2i(exp_inc_real, 0, 2 ** 32 - 1, o.ctx)
                 res.ob('R-INC', inst0 + '->%s' % s1, ok_inc, 'increment programmed on this tick = %r; expected trunc(2^%d / (%s * fs))' % (inc1, total, TIME_FIELD[state]), where, key='R-INC:%s->%s' % (inst0, s1))
@@ -624,10 +625,11 @@ def check_tick(res, facts, prop):
                     res.ob('R-FSM', inst0 + '->stay|flag', bool_of(o.ctx, pa1.get('rolled_over')) is False, 'rolled_over left set: %r' % (pa1.get('rolled_over'),), where, key='R-FSM:%s:stay-flag' % inst0)
             else:
                 res.ob('R-FSM', inst0 + '->%s' % s1, False, 'illegal transition %s -> %s on tick' % (state, s1), where, key='R-FSM:%s:illegal' % inst0)
-            if not full:
+            if not timing:
                 continue
-            allowed = {'value', 'state', 'phase_accumulator.accumulator', 'phase_accumulator.last_accumulator', 'phase_accumulator.increment', 'phase_accumulator.rolled_over'}
-            res.ob('R-FSM', inst0 + '->%s|writes' % s1, set(ch) <= allowed, 'unexpected writes: %s' % sorted(set(ch) - allowed), where, key='R-FSM:%s:%s:writes' % (inst0, s1))
+            if full:
+                allowed = {'value', 'state', 'phase_accumulator.accumulator', 'phase_accumulator.last_accumulator', 'phase_accumulator.increment', 'phase_accumulator.rolled_over'}
+                res.ob('R-FSM', inst0 + '->%s|writes' % s1, set(ch) <= allowed, 'unexpected writes: %s' % sorted(set(ch) - allowed), where, key='R-FSM:%s:%s:writes' % (inst0, s1))
             # liveness: increment >= 1 for every legal time and sample rate
             lo, hi = o.ctx.rng(inc1.term)
             res.ob('R-INC', inst0 + '->%s|increment >= 1' % s1, lo >= 1, 'increment range [%s, %s] over time in %s s and fs in [%d,%d] Hz: a zero increment never ends the phase' % (lo, hi, [float(x) for x in dds.tp_range], FS_MIN, FS_MAX), where, key='R-INC:%s:%s:live' % (inst0, s1))
@@ -789,6 +791,34 @@ def p_only_inside_frem(term, sym):
     return True
 
 
+def check_constructors(res, facts, owner):
+    """R-NEW: `Adsr::new(fs)` / `Lfo::new(fs)` hand exactly their argument to the accumulator (every duration and
+    frequency is computed from the stored rate), with the accumulator at phase 0 and no increment"""
+    dds = Dds(facts)
+    total, index = pa_instantiation(facts, owner)
+    it = dds.interp()
+    st = State()
+    fs = float_sym(st, 'fs', FS_MIN, FS_MAX)
+    st2 = it.start(owner + '::new', [fs], state=st)
+    outs = it.run(st2)
+    res.absorb(it)
+    where = where_of(facts, owner + '::new')
+    n = 0
+    for o in sem_iter(outs):
+        n += 1
+        r = o.ret
+        pa = r.get('phase_accumulator') if o.status == 'returned' and isinstance(r, StructV) and r.has('phase_accumulator') else None
+        ok = isinstance(pa, StructV) and isinstance(pa.get('sample_rate_hz'), Num) and pa.get('sample_rate_hz').term == fs.term \
+            and pa.get('accumulator').term == ZERO and pa.get('increment').term == ZERO and bool_of(o.ctx, pa.get('rolled_over')) is False
+        res.ob('R-NEW', '%s::new stores the sample rate it is given' % owner.split('::')[-1], ok,
+               'accumulator after new(fs) = %r; expected sample_rate_hz = fs, phase 0, increment 0' % (pa,), where, key='R-NEW:' + owner.split('::')[-1])
+        if ok and owner == ADSR:
+            ok2 = state_name(r.get('state')) == 'AtRest' and r.get('value').term == ZERO
+            res.ob('R-NEW', 'Adsr::new starts at rest with output 0', ok2, 'state %s value %r' % (state_name(r.get('state')), r.get('value')), where, key='R-NEW:Adsr:rest')
+    res.floor('constructor_outcomes:' + owner.split('::')[-1], n, 1)
+    return n
+
+
 def check_lfo_wrappers(res, facts):
     """Lfo::{tick,set_frequency,reset,set_phase} forward to the accumulator with the argument unchanged"""
     dds = Dds(facts)
@@ -829,7 +859,8 @@ def check_waves(res, facts, prop):
     r = acc.scale(Fr(1, 1 << total))
     F = fraction_term(dds, total, index)
     n = 0
-    shapes = ['Sine', 'Triangle'] if prop == 'C12' else ['Sine', 'Triangle', 'UpSaw', 'DownSaw', 'Square']
+    # (C11: the phase is observed through the up-saw, which must read the accumulator and nothing else)
+    shapes = ['Sine', 'Triangle'] if prop == 'C12' else (['UpSaw'] if prop == 'C11' else ['Sine', 'Triangle', 'UpSaw', 'DownSaw', 'Square'])
     for shape in shapes:
         parts = [('all', None)]
         if shape == 'Sine':
@@ -885,5 +916,5 @@ def check_waves(res, facts, prop):
                         spec = lin(tbl(T_SINE, n_tab - 1), tbl(T_SINE, 0), F)
                         g2 = renorm_tbl(got.subst({('sym', 'self.pa.I'): Poly.const(n_tab - 1)}), o.ctx)
                     res.ob('R-INTERP', inst, g2 == spec, 'Sine = %r; expected %r (neighbour = next cell, wrapping to cell 0 after the last)' % (g2, spec), where, key='R-INTERP:' + inst)
-    res.floor('wave_outcomes', n, 5 if prop == 'C12' else 9)
+    res.floor('wave_outcomes', n, 5 if prop == 'C12' else (1 if prop == 'C11' else 9))
     return n
